@@ -6,6 +6,7 @@
 //   c16 cdt      <seed> <n> <outbase>
 //   c16 voronoi  <seed> <n> <outbase>
 //   c16 replay   <file>          re-run the implementation on the input part of each case line, print fresh case lines
+//   c16 incircle ax ay bx by cx cy dx dy | incirclef <file>   the implementation's in-circle predicate on hex doubles
 //   c16 sites    <tolhex> x y x y ...   (decimal integers) convenience: print a delaunay case line
 // Case grammar (tokens; geometry = GTree tokens, doubles = 16 hex digits):
 //   D <tol> <input MultiPoint> T (<geom>|ERR) E (<geom>|ERR)
@@ -347,6 +348,14 @@ int main(int argc, char** argv) {
         using geos::triangulate::quadedge::TrianglePredicate; using geos::geom::CoordinateXY;
         if (argc < 10) return 2; double v[8]; for (int i = 0; i < 8; i++) v[i] = frombits(std::stoull(argv[2 + i], nullptr, 16));
         std::cout << (int) TrianglePredicate::isInCircleRobust(CoordinateXY(v[0], v[1]), CoordinateXY(v[2], v[3]), CoordinateXY(v[4], v[5]), CoordinateXY(v[6], v[7])) << "\n";
+        GEOS_finish_r(H); return 0;
+    }
+    if (stream == "incirclef") {   // c16 incirclef <file>: one query (8 hex doubles) per line, one answer per line
+        using geos::triangulate::quadedge::TrianglePredicate; using geos::geom::CoordinateXY;
+        std::ifstream f(argv[2]); std::string line;
+        while (std::getline(f, line)) { auto t = splitToks(line); if (t.size() < 8) { std::cout << "-1\n"; continue; }
+            double v[8]; for (int i = 0; i < 8; i++) v[i] = frombits(std::stoull(t[i], nullptr, 16));
+            std::cout << (int) TrianglePredicate::isInCircleRobust(CoordinateXY(v[0], v[1]), CoordinateXY(v[2], v[3]), CoordinateXY(v[4], v[5]), CoordinateXY(v[6], v[7])) << "\n"; }
         GEOS_finish_r(H); return 0;
     }
     if (stream == "sites") {
